@@ -7,7 +7,7 @@ MC = "model_checking"; EX = "exploration"
 P = {
  "C01": (MC, "XPLORE+refcheck", "bounded-exhaustive enumeration of predicate-graph *encodings* (all node/edge lists up to the bound, incl. non-topological numberings, multi-edges, cycles, malformed slices) x node-program roles x solution sets x both config values x both call patterns, each run through the real checker and compared with the reference graph semantics; observation through echo reads", "4 C01", "reference graph semantics (Appendix A) is the oracle; the VM itself is trusted here (it is the subject of C05-C12); node programs come from a fixed role menu", "explicit enumeration of graph encodings + reference-model comparison on the real checker"),
  "C02": (MC, "rayon-shim+XPLORE", "controlled-scheduler exploration of the real checker and VM: every completion order of every parallel section with <=3 tasks, deviation-bounded beyond; op-granular preemptive interleavings (shuttle runtime, own bounded DFS scheduler) of compute children; sync-operation-granular interleavings in a build whose essential-vm/essential-check come from a token-rewritten copy with shuttle's Mutex/RwLock/Once/atomics (mode S, syncmc); each schedule's result must equal the sequential one; real-rayon conformance runs bind the shim to the implementation", "4 C02", "the shim's model of rayon's result assembly (checked against rayon 1.10 sources and by conformance runs); HashMap iteration order is covered by a sweep over hasher seeds in mode S only (8 quick / 32 thorough seeds, not an enumeration of orders); synchronisation reached through paths other than std::sync / core::sync::atomic / std::thread is outside", "stateless schedule enumeration (completion orders, preemption-bounded VM-op interleavings, deviation-bounded sync-operation interleavings of a shuttle-bound copy) of the real code under a rayon stand-in"),
- "C03": (MC, "XPLORE+refcheck", "bounded-exhaustive enumeration of pre-states, declared/computed mutation sets, read requests (op, contract, key, count) and placements of the reading node in the graph; every value returned to a post read and every pass attribution compared with the overlay reference", "4 C03", "the mock state's key successor / range convention (that of the repository's own test state)", "explicit enumeration of state/mutation/read configurations against an overlay reference on the real two-pass checker"),
+ "C03": (MC, "XPLORE+refcheck", "bounded-exhaustive enumeration of pre-states, declared/computed mutation sets, read requests (op, contract, key, count), further solutions of the reader's contract and placements of the reading node in the graph; every value returned to a post read and every pass attribution compared with the overlay reference", "4 C03", "the mock state's key successor / range convention (that of the repository's own test state)", "explicit enumeration of state/mutation/read configurations against an overlay reference on the real two-pass checker"),
  "C04": (EX, "enumeration", "all solution sets of 1..3(4) solutions from a colliding domain x all permutations; metamorphic oracle across permutations (address, set verdict, two-pass verdict, gas, computed mutations) plus the one-value-per-slot invariant", "4 C04", "small colliding domain of contracts/keys/values; predicates from a fixed menu", "bounded-exhaustive permutation enumeration with a metamorphic oracle"),
  "C05": (MC, "VMGRAPH(stateright)+XPLORE", "explicit-state search (stateright BFS) over real VM configurations: every op x boundary-word pushes from several initial states incl. at-limit shapes; invariant (no panic, bounds on stack/memory/repeat depth/compute depth) checked after every transition, also inside compute children via the on_step hook; both arithmetic profiles; worker death (abort/hang) is observed and classified", "4 C05", "boundary word alphabet; depth bound; Compute breadth beyond a few thousand excluded", "explicit-state BFS over VM configurations with the real step function + bounded-exhaustive hole-program exploration"),
  "C06": (EX, "enumeration", "all word strings <=4(6) over boundary values through the mutation decoders, all short byte strings and structure-aware truncated blobs through predicate/bytecode decoders, all graph encodings of C01 through every checker entry point, data-output memories and read counts up to i64::MAX; subprocess isolation with address-space limit so aborts and run-aways are observed", "4 C06", "boundary alphabets; 8 GiB address-space limit and 30 s horizon define 'abort' and 'hang'", "bounded-exhaustive input enumeration with process-level fault observation"),
@@ -15,9 +15,9 @@ P = {
  "C08": (MC, "VMGRAPH(stateright)", "explicit-state search over real VM configurations restricted to Stack/Pred/Alu/Memory/ParentMemory ops; every transition compared with the reference single-step function on the complete configuration (frame condition) and on error-ness", "4 C08", "boundary word alphabet; Mod(MIN,-1) masked; error variants not compared", "explicit-state BFS with per-transition reference comparison"),
  "C09": (MC, "XPLORE+refvm", "hole-program exploration (all control-flow programs up to the length bound over boundary constants) through exec and eval, compared with the reference on final pc, stack, gas and error index", "4 C09", "RepeatCounter in loops entered with count<=0 masked; gas limit cuts loops", "stateless exhaustive program enumeration against a reference VM"),
  "C10": (MC, "XPLORE+refvm+rayon-shim", "hole-program exploration of Compute programs against the sequential-loop reference, from several parent states, plus directed large-breadth cases; schedules of the children enumerated under the shim", "4 C10", "stray ComputeEnd and children ending behind the Compute masked/convention; breadth beyond thousands excluded", "stateless exhaustive program + schedule enumeration against a sequential reference"),
- "C11": (EX, "enumeration", "full product of read op x frame x address x key x operands x memory size x environment answer (the mock state's answer is an explored choice), recorder checks the exact request, memory compared word for word with the documented layout", "4 C11", "finite menus of keys/answers", "exhaustive enumeration of operands and environment answers against a layout reference"),
+ "C11": (EX, "enumeration", "full product of read op x solution index x frame x address x key x operands x memory size x environment answer (the mock state's answer is an explored choice), recorder checks the exact request, memory compared word for word with the documented layout", "4 C11", "finite menus of keys/answers", "exhaustive enumeration of operands and environment answers against a layout reference"),
  "C12": (EX, "enumeration", "all solution sets/indices/operands from small domains for access ops; every byte length, tamper position and recovery id for crypto ops, against direct slicing / the hash and sign crates", "4 C12", "keys, digests, messages from fixed pools: structure exhausted, value spaces not", "bounded-exhaustive input enumeration against library oracles"),
- "C13": (EX, "enumeration", "all 256 bytes, all byte pairs, all ops x boundary immediates, all op sequences <=2(3), every truncation; compared with an independent reading of asm.yml and a pinned opcode table", "4 C13", "pinned table golden/opcodes.tsv taken at the pinned commit", "exhaustive byte/opcode enumeration against an independent spec reader"),
+ "C13": (EX, "enumeration", "all 256 bytes, all byte pairs, all ops x boundary immediates, all op sequences <=2(3), every truncation, every way of driving the serialiser's iterator (next / fold / nth), enum discriminants; compared with an independent reading of asm.yml and a pinned opcode table", "4 C13", "pinned table golden/opcodes.tsv taken at the pinned commit", "exhaustive byte/opcode enumeration against an independent spec reader"),
  "C14": (MC, "XPLORE", "differential execution of mapped bytecode vs op list over the C09/C10 program sets and the byte-string corpora", "4 C14", "both paths are real code; equality of final Vm, gas and error rendering", "stateless exhaustive program enumeration, differential oracle between two real paths"),
  "C15": (EX, "enumeration", "all programs <=2(3) symbols over all ops with immediates containing every effect opcode byte at every position x all 64 effect subsets, against an op-name derived effect table", "4 C15", "effect table derived from op names", "bounded-exhaustive program enumeration against a reference table"),
  "C16": (EX, "enumeration", "sizes {0,1,L-1,L,L+1} for every documented limit in combination; returned computed sets re-validated", "4 C16", "one carrier element holds the big size; C04-interaction masked", "boundary-exhaustive enumeration of limit combinations"),
